@@ -17,7 +17,10 @@ Leaves == {
   [t |-> "obj", home |-> H("datetime", <<"date">>), text |-> <<"datetime", "date">>, tag |-> "pydate"],  \* repr: datetime.date(...)
   [t |-> "enum", home |-> H("M", <<"Color">>), member |-> "RED"],
   [t |-> "enum", home |-> H("M", <<"Outer", "Shade">>), member |-> "DARK"],
-  [t |-> "model", home |-> H("M", <<"Outer", "Inner">>), fields |-> << [name |-> "x", v |-> P("int:5"), dflt |-> P("none")] >>]
+  [t |-> "model", home |-> H("M", <<"Outer", "Inner">>), fields |-> << [name |-> "x", v |-> P("int:5"), dflt |-> P("none")] >>],
+  \* qualified names three levels deep: the import line must still bind the TOP-LEVEL class
+  [t |-> "enum", home |-> H("M", <<"Outer", "Mid", "Tint">>), member |-> "PALE"],
+  [t |-> "model", home |-> H("M", <<"Outer", "Mid", "Deep">>), fields |-> << [name |-> "x", v |-> P("int:5"), dflt |-> P("none")] >>]
 }
 Seqs == {[t |-> "seq", kind |-> k, items |-> it] : k \in {"list", "tuple"}, it \in {<<>>} \cup {<<a>> : a \in Leaves} \cup {<<P("int:5"), P("int:6")>>}}
 Members == Leaves \cup Seqs
